@@ -93,6 +93,7 @@ func (mb *mbox) removeMessage(id string) error {
 	}
 	// There are still messages in the index
 	log.Debug().Str("module", "storage").Str("path", msg.rawPath()).Msg("Deleting file")
+	verifPoint("remove.raw", msg.rawPath())
 	return os.Remove(msg.rawPath())
 }
 
@@ -159,11 +160,13 @@ func (mb *mbox) writeIndex() error {
 		if err := mb.createDir(); err != nil {
 			return err
 		}
+		verifPoint("index.mkdir", mb.path)
 		// Open index for writing
 		file, err := os.Create(mb.indexPath)
 		if err != nil {
 			return err
 		}
+		verifPoint("index.create", mb.indexPath)
 		writer := bufio.NewWriter(file)
 		// Write each message and then flush
 		enc := gob.NewEncoder(writer)
@@ -177,15 +180,18 @@ func (mb *mbox) writeIndex() error {
 				return err
 			}
 		}
+		verifPoint("index.encoded", mb.indexPath)
 		if err := writer.Flush(); err != nil {
 			_ = file.Close()
 			return err
 		}
+		verifPoint("index.flushed", mb.indexPath)
 		if err := file.Close(); err != nil {
 			log.Error().Str("module", "storage").Str("path", mb.indexPath).Err(err).
 				Msg("Failed to close")
 			return err
 		}
+		verifPoint("index.closed", mb.indexPath)
 	} else {
 		// No messages, delete index+maildir
 		log.Debug().Str("module", "storage").Str("path", mb.path).Msg("Removing mailbox")
@@ -209,9 +215,11 @@ func (mb *mbox) createDir() error {
 // removeDir removes the mailbox, plus empty higher level directories
 func (mb *mbox) removeDir() error {
 	// remove mailbox dir, including index file
+	verifPoint("rmdir.all.before", mb.path)
 	if err := os.RemoveAll(mb.path); err != nil {
 		return err
 	}
+	verifPoint("rmdir.all.after", mb.path)
 	// remove parents if empty
 	dir := filepath.Dir(mb.path)
 	if removeDirIfEmpty(dir) {
